@@ -20,6 +20,7 @@ if T.TYPE_CHECKING:
     from .interpreter import Interpreter
     from .kwargs import DoSubproject
     from ..dependencies.base import DependencyObjectKWs
+    from ..dependencies.detect import TV_DepID
     from ..options import ElementaryOptionValues, OptionDict
     from .interpreterobjects import SubprojectHolder
     from ..mesonlib import MachineChoice
@@ -212,6 +213,15 @@ class DependencyFallbacksHolder(MesonInterpreterObject):
 
         mlog.log(*msg)
 
+    @staticmethod
+    def _get_override_identifier(name: str, kwargs: DependencyObjectKWs) -> 'TV_DepID':
+        # meson.override_dependency() has no 'method' keyword: the detection
+        # method only says how to search the system, an override applies
+        # whatever method the lookup asks for.
+        nkwargs = kwargs.copy()
+        nkwargs.pop('method', None)
+        return dependencies.get_dep_identifier(name, nkwargs)
+
     def _get_cached_dep(self, name: str, kwargs: DependencyObjectKWs) -> T.Optional[Dependency]:
         # Unlike other methods, this one returns not-found dependency instead
         # of None in the case the dependency is cached as not-found, or if cached
@@ -221,7 +231,7 @@ class DependencyFallbacksHolder(MesonInterpreterObject):
         wanted_vers = stringlistify(kwargs.get('version', []))
 
         info: mlog.TV_LoggableList = [mlog.blue('(cached)')]
-        override = self.build.dependency_overrides[self.for_machine].get(identifier)
+        override = self.build.dependency_overrides[self.for_machine].get(self._get_override_identifier(name, kwargs))
         if override:
             if override.explicit:
                 info = [mlog.blue('(overridden)')]
@@ -372,7 +382,7 @@ class DependencyFallbacksHolder(MesonInterpreterObject):
                 # Override this dependency to have consistent results in subsequent
                 # dependency lookups.
                 for name in self.names:
-                    identifier = dependencies.get_dep_identifier(name, kwargs)
+                    identifier = self._get_override_identifier(name, kwargs)
                     if identifier not in self.build.dependency_overrides[self.for_machine]:
                         self.build.dependency_overrides[self.for_machine][identifier] = \
                             build.DependencyOverride(dep, self.interpreter.current_node, explicit=False)
